@@ -12,7 +12,7 @@ import subprocess, glob, os, json, sys, shutil, tempfile
 VERIF = os.path.dirname(os.path.dirname(os.path.abspath(__file__)))
 MODS = ('DcVerif.Props.C01Gen DcVerif.Props.C02Gen DcVerif.Props.C03Gen DcVerif.Props.C04Gen DcVerif.Props.C05Gen DcVerif.Props.C06Gen '
         'DcVerif.Props.C07Gen DcVerif.Props.C07 DcVerif.Props.C08Gen DcVerif.Props.C09Gen DcVerif.Props.C11Gen DcVerif.Props.C12Gen '
-        'DcVerif.Props.C13Gen DcVerif.Props.C13WaitGen DcVerif.Props.C14Gen DcVerif.Props.C14MGen DcVerif.Props.C15Gen DcVerif.Props.C16 '
+        'DcVerif.Props.C13Gen DcVerif.Props.C13WaitGen DcVerif.Props.C14Gen DcVerif.Props.C14MGen DcVerif.Props.C15Gen DcVerif.Props.C01Store DcVerif.Props.C16 '
         'DcVerif.Props.C17 DcVerif.Props.C18Gen DcVerif.Props.C19 DcVerif.Props.C05 DcVerif.Lemmas.RingMultiHBW')
 
 
